@@ -144,12 +144,112 @@ Theorem C01_seq_oracle_holds : forall root ms st,
 Proof. exact (seq_oracle_holds src_cfg C01_source_configuration_good). Qed.
 Print Assumptions C01_seq_oracle_holds.
 
+(* 9. attribute values are typed (QString, int, bool, double, QByteArray) and the delivered attribute map
+   carries exactly the LAST written (type, value) per key: after a setter l - an attribute handler returning
+   {k: v} (updateAttributes) or a generic handler calling setAttribute(k, v) - wrote v, and the handlers [mid]
+   up to a sink ran without a rejection and without an unscoped write to k (scoped children inside [mid] may
+   do anything), the sink's delivery shows k = v, whatever k held before - in particular a value of another
+   type that Qt5's loose QVariant::operator== calls equal.  [run] is the loop of ANY pipeline, so this is
+   the statement inside scoped and unscoped children as well. *)
+Theorem C01_values_compared_strictly : forall a b, val_eqb a b = true <-> a = b.
+Proof. exact val_eqb_iff. Qed.
+Print Assumptions C01_values_compared_strictly.
+Theorem C01_last_write_wins : forall pre o l mid st m st3 m3 e3 k v,
+  leaf_sets l k = Some v -> may_write_l k mid = false ->
+  run src_cfg (pre ++ HLeaf o l :: mid) st m = (st3, m3, true, e3) ->
+  lookup k (mattrs m3) = Some v.
+Proof. exact (last_write_wins src_cfg C01_source_configuration_good). Qed.
+Print Assumptions C01_last_write_wins.
+Theorem C01_sink_sees_last_write : forall pre o l mid o' rest st m st3 m3 e3 k v,
+  leaf_sets l k = Some v -> may_write_l k mid = false ->
+  run src_cfg (pre ++ HLeaf o l :: mid) st m = (st3, m3, true, e3) ->
+  run src_cfg ((pre ++ HLeaf o l :: mid) ++ HLeaf o' LSink :: rest) st m =
+    (let '(st4, m4, k4, e4) := run src_cfg rest st3 m3 in
+     (st4, m4, k4, e3 ++ EDeliver o' false (content_of m3) :: e4))
+  /\ lookup k (c_attrs (content_of m3)) = Some v.
+Proof. exact (sink_sees_last_write src_cfg C01_source_configuration_good). Qed.
+Print Assumptions C01_sink_sees_last_write.
+(* a key no handler can change for its successors (scoped children do not count) is handed on unchanged *)
+Theorem C01_untouched_key_kept : forall k hs st m,
+  may_write_l k hs = false -> lookup k (mattrs (res_msg (run src_cfg hs st m))) = lookup k (mattrs m).
+Proof. exact (untouched_key_kept src_cfg C01_source_configuration_good). Qed.
+Print Assumptions C01_untouched_key_kept.
+
+(* 10. structural edits between messages (append / operator<< / fluent call, append(list), remove(object),
+   clear(), the typed SortedPipeline calls and clear<Class>() on any pipeline of the tree): every message is
+   evaluated by [run] on the tree AS IT IS AT THAT MOMENT - all earlier edits applied, none of the later ones -
+   from the handler states its predecessors left; so every per-message law holds along every history *)
+Theorem C01_steps_nth : forall root pre m post st,
+  let st_pre := fst (fst (run_steps src_cfg root st pre)) in
+  let tree := tree_after root pre in
+  nth_error (snd (run_steps src_cfg root st (pre ++ SMsg m :: post))) (count_msgs pre)
+  = Some {| o_tree := tree; o_msg := m; o_events := res_events (run src_cfg tree st_pre m);
+            o_final := content_of (res_msg (run src_cfg tree st_pre m)) |}.
+Proof. exact (run_steps_nth src_cfg). Qed.
+Print Assumptions C01_steps_nth.
+Theorem C01_steps_tree : forall steps root st, snd (fst (run_steps src_cfg root st steps)) = tree_after root steps.
+Proof. exact (steps_tree src_cfg). Qed.
+Print Assumptions C01_steps_tree.
+Theorem C01_steps_without_edits : forall root ms st,
+  fst (fst (run_steps src_cfg root st (map SMsg ms))) = fst (run_seq src_cfg root st ms)
+  /\ snd (fst (run_steps src_cfg root st (map SMsg ms))) = root
+  /\ map (fun o => (o_events o, o_final o)) (snd (run_steps src_cfg root st (map SMsg ms))) = snd (run_seq src_cfg root st ms).
+Proof. exact (run_steps_msgs src_cfg). Qed.
+Print Assumptions C01_steps_without_edits.
+Theorem C01_steps_lifts : forall (R : list handler -> msg -> list event -> content -> Prop),
+  (forall tree st m, R tree m (res_events (run src_cfg tree st m)) (content_of (res_msg (run src_cfg tree st m)))) ->
+  forall steps root st,
+    Forall (fun o => R (o_tree o) (o_msg o) (o_events o) (o_final o)) (snd (run_steps src_cfg root st steps)).
+Proof. exact (run_steps_lifts src_cfg). Qed.
+Print Assumptions C01_steps_lifts.
+Theorem C01_steps_in_order : forall steps root st,
+  Forall (fun o => Trav (o_tree o) (o_events o)) (snd (run_steps src_cfg root st steps)).
+Proof. exact (steps_in_order src_cfg C01_source_configuration_good). Qed.
+Print Assumptions C01_steps_in_order.
+Theorem C01_steps_oracle_holds : forall steps root st,
+  Forall (fun o => prop_c01_b (o_tree o) (o_msg o) (o_events o) = true) (snd (run_steps src_cfg root st steps)).
+Proof. exact (steps_oracle_holds src_cfg C01_source_configuration_good). Qed.
+Print Assumptions C01_steps_oracle_holds.
+Theorem C01_steps_which_zero : forall steps root st,
+  which_steps root steps (map o_events (snd (run_steps src_cfg root st steps))) = repeat 0 (count_msgs steps).
+Proof. exact (steps_which_zero src_cfg C01_source_configuration_good). Qed.
+Print Assumptions C01_steps_which_zero.
+(* what the edits do to the addressed list, and that they touch nothing else *)
+Theorem C01_append_runs_last : forall h l st m,
+  h <> HNull ->
+  run src_cfg (apply_op (OAppend h) l) st m =
+    let '(st1, m1, k, e1) := run src_cfg l st m in
+    if k then let '(st2, m2, k2, e2) := run src_cfg [h] st1 m1 in (st2, m2, k2, e1 ++ e2)
+    else (st1, m1, false, e1).
+Proof. exact (append_runs_last src_cfg C01_source_configuration_good). Qed.
+Print Assumptions C01_append_runs_last.
+Theorem C01_remove_spec : forall o l h, In h (apply_op (ORemove o) l) <-> In h l /\ has_oid o h = false.
+Proof. exact op_remove_spec. Qed.
+Print Assumptions C01_remove_spec.
+Theorem C01_clear_class_spec : forall k l h, In h (apply_op (OClearClass k) l) <-> In h l /\ in_cls [k] h = false.
+Proof. exact op_clear_class_spec. Qed.
+Print Assumptions C01_clear_class_spec.
+Theorem C01_typed_call_inserts_one : forall h l,
+  class_of h <> None ->
+  exists a b, (match class_of h with Some CFmt => clear_class CFmt l | _ => l end) = a ++ b
+              /\ apply_op (OSorted h) l = a ++ h :: b.
+Proof. exact op_sorted_inserts_one. Qed.
+Print Assumptions C01_typed_call_inserts_one.
+Theorem C01_edit_reaches_child : forall i p f hs sc c,
+  nth_error hs i = Some (HPipe sc c) -> nth_error (edit_at (i :: p) f hs) i = Some (HPipe sc (edit_at p f c)).
+Proof. exact edit_at_child. Qed.
+Print Assumptions C01_edit_reaches_child.
+Theorem C01_edit_touches_nothing_else : forall i p f hs j,
+  j <> i -> nth_error (edit_at (i :: p) f hs) j = nth_error hs j.
+Proof. exact edit_at_elsewhere. Qed.
+Print Assumptions C01_edit_touches_nothing_else.
+
 (* ---- non-vacuity: a depth-3 tree mixing all constructors, a formatter before a scoped child, a rejecting
    filter (11) inside it, a shared SeqNumberAttr object (4) at two places, a null entry.
    Per event: (object, returned / delivered, text shown to a sink or probe). *)
 Example C01_nonvacuous :
   let tree :=
-    [ HLeaf 1 (LAttrSet [97%N] [120%N]); HNull; HLeaf 2 (LFmtTag [116%N]);
+    [ HLeaf 1 (LAttrSet [97%N] (VStr [120%N])); HNull; HLeaf 2 (LFmtTag [116%N]);
       HPipe true [ HLeaf 3 LProbe; HLeaf 4 (LSeq [110%N]);
                    HPipe false [ HLeaf 5 (LGenFmt [103%N] true); HLeaf 6 LFmtNull; HLeaf 7 (LAttrCopy [98%N]);
                                  HPipe true [ HLeaf 8 LFmtEmpty; HLeaf 9 (LGenRemove [97%N] true); HLeaf 10 LSink ] ];
@@ -172,10 +272,50 @@ Proof. vm_compute. reflexivity. Qed.
 
 (* the restore also puts back "unformatted" (None) and "formatted with the empty string" (Some []) *)
 Example C01_restore_unformatted_and_empty :
-  let child := HPipe true [HLeaf 1 (LFmtTag [116%N]); HLeaf 2 (LGenSet [97%N] [98%N] true)] in
+  let child := HPipe true [HLeaf 1 (LFmtTag [116%N]); HLeaf 2 (LGenSet [97%N] (VStr [98%N]) true)] in
   fmt (res_msg (exec src_cfg child [] {| mt := Info; text := [104%N]; fmt := None; mattrs := [] |})) = None
   /\ fmt (res_msg (exec src_cfg child [] {| mt := Info; text := [104%N]; fmt := Some []; mattrs := [] |})) = Some []
   /\ mattrs (res_msg (exec src_cfg child [] {| mt := Info; text := [104%N]; fmt := Some [120%N]; mattrs := [] |})) = []
   /\ fmt (res_msg (exec src_cfg (HPipe false [HLeaf 1 (LFmtTag [116%N])]) []
                         {| mt := Info; text := [104%N]; fmt := None; mattrs := [] |})) = Some [116; 58; 104]%N.
 Proof. vm_compute. repeat split. Qed.
+
+(* typed overwrites: int 1, then the string "1" through setAttribute in an unscoped child, then bool true
+   through an attribute handler inside a scoped child: each sink sees the last written type, and after the
+   scoped child the string is back *)
+Example C01_typed_last_write :
+  let k := [99%N] in
+  let tree :=
+    [ HLeaf 1 (LGenSet k (VInt 1) true); HLeaf 2 LSink;
+      HPipe false [ HLeaf 3 (LGenSet k (VStr [49%N]) true) ]; HLeaf 4 LSink;
+      HPipe true [ HLeaf 5 (LAttrSet k (VBool true)); HLeaf 6 LSink;
+                   HLeaf 7 (LAttrSetMany [(k, VDbl 2); (k, VBytes [49%N])]); HLeaf 8 LSink ];
+      HLeaf 9 LSink ] in
+  let m := {| mt := Info; text := [104%N]; fmt := None; mattrs := [] |} in
+  map (fun e => match e with EDeliver o _ c => (o, lookup k (c_attrs c)) | EExec o _ => (o, None) end)
+      (res_events (run src_cfg tree [] m))
+  = [ (1, None); (2, Some (VInt 1)); (3, None); (4, Some (VStr [49%N])); (5, None); (6, Some (VBool true));
+      (7, None); (8, Some (VBytes [49%N])); (9, Some (VStr [49%N])) ]
+  /\ val_eqb (VInt 1) (VStr [49%N]) = false /\ val_eqb (VInt 1) (VBool true) = false
+  /\ val_eqb (VInt 1) (VDbl 2) = false /\ val_eqb (VStr [49%N]) (VBytes [49%N]) = false.
+Proof. vm_compute. repeat split. Qed.
+
+(* a history: configure, one message, then a filter put in through the typed call, the formatter replaced, a
+   sink appended inside the child, the first sink removed; later messages see the tree of their moment *)
+Example C01_history_with_edits :
+  let root := [ HLeaf 1 (LFilter PTrue); HLeaf 2 (LFmtTag [65%N]); HLeaf 3 LSink; HPipe true [ HLeaf 4 LProbe ] ] in
+  let m t := {| mt := t; text := [109%N]; fmt := None; mattrs := [] |} in
+  let steps :=
+    [ SMsg (m Debug);
+      SEdit {| e_path := []; e_op := OClearClass CFilter |};
+      SEdit {| e_path := []; e_op := OSorted (HLeaf 5 (LLevel Warning)) |};
+      SEdit {| e_path := []; e_op := OSorted (HLeaf 6 (LFmtTag [66%N])) |};
+      SEdit {| e_path := [3]; e_op := OAppend (HLeaf 7 LSink) |};
+      SMsg (m Debug); SMsg (m Warning);
+      SEdit {| e_path := []; e_op := ORemove 3 |};
+      SMsg (m Critical) ] in
+  tree_after root steps
+  = [ HLeaf 5 (LLevel Warning); HLeaf 6 (LFmtTag [66%N]); HPipe true [ HLeaf 4 LProbe; HLeaf 7 LSink ] ]
+  /\ map (fun o => map ev_oid (o_events o)) (snd (run_steps src_cfg root [] steps))
+     = [ [1; 2; 3; 4]; [5]; [5; 6; 3; 4; 7]; [5; 6; 4; 7] ].
+Proof. vm_compute. split; reflexivity. Qed.
